@@ -64,7 +64,7 @@ def store_jobs(prop, tier, seed):
                  gen_job('sim_all', 'all', 1, simulate=12, simdepth=6, size='m', style=style, reads=light, MaxAnns=6, MaxData=4, MaxRes=2)]
     else:
         jobs.append(mc_job('mc_complex', 'complex', maxanns=3))
-        jobs.append(mc_job('mc_core', 'core', maxanns=3, timeout=3000))                               # ~4e5 states, ~10 min
+        jobs.append(mc_job('mc_core', 'core', maxanns=2, timeout=3000))                               # ~2e4 states (maxanns=3: 4e5 states, 11 min)
         jobs.append(mc_job('mc_core_m', 'core', maxanns=2, size='m', MaxData=1, MaxKeys=1, timeout=3000))    # ~4e4 states
         jobs.append(mc_job('mc_fail', 'fail', maxanns=2))
         jobs += [gen_job('core_p1', 'core', 1, depth=3, style=style),
